@@ -73,4 +73,11 @@ End Piecewise.
 Section Driver.
   Context {T : Type} {A : Arith T}.
   Definition c18_piecewise : T -> list T -> list T -> option (option T) := piecewise_full.
+  (** a test function for FindRoot that is a table lookup through [Piecewise]
+      ( y, err := fn.Piecewise(x, xs, ys); if err != nil { return -1 } ; return y ) *)
+  Definition c18_tf_pwt (xs ys : list T) (x : T) : T :=
+    match piecewise_full x xs ys with
+    | Some (Some v) => v
+    | _ => neg one
+    end.
 End Driver.
